@@ -35,10 +35,18 @@ def corrupt_run(recs):
     return "one accepted program's run now ends in a stuck state"
 
 
+def corrupt_coverage(recs):
+    i = next(i for i, r in enumerate(recs) if not r["accepted"] and len(r["reported"]) >= 2)
+    recs[i]["accepted"] = True
+    recs[i]["reported"] = []
+    return "one non-exhaustive match recorded as accepted"
+
+
 CASES = [
     ("ZyDeterminismTrace.tla", "ZyDeterminismTrace.cfg", "determinism/trace.ndjson", corrupt_determinism, None),
     ("ZyFrontendTrace.tla", "ZyFrontendTrace.cfg", "frontend/trace.ndjson", corrupt_frontend, None),
     ("ZyFormatTrace.tla", "ZyFormatTrace.cfg", "format/trace.ndjson", corrupt_format, "bad12"),
+    ("ZyCoverageTrace.tla", "ZyCoverageTrace.cfg", "cov/q.trace.ndjson", corrupt_coverage, None),
 ]
 
 
